@@ -9,6 +9,7 @@ import HappyProofs.C14.TxnLsm
 import HappyProofs.C14.StoreTrace
 import HappyProofs.C14.TxnTrace
 import HappyProofs.C14.TxnTraceSide
+import HappyProofs.C14.TxnLsmTrace
 /-!
 # C14 — property theorems (LSM tree as a map)
 
